@@ -24,6 +24,7 @@ is not a raw tree (the stripped subtree lies below a transfer node, where the th
 -/
 import DafRel.Lemmas.Build
 import DafRel.Lemmas.ConformSound
+import DafRel.Lemmas.SqlTransfer
 import DafRel.Bridge.Tables
 import DafRel.Bridge.RelOps
 
@@ -184,74 +185,9 @@ theorem transfer_through_sql_keeps_content (σ : Leaves) (st : Store) (fuel : Na
     (res : Res) (hwf : t.WF) (htr : t.Truthful σ) (hraw : t.engine.kind = .sql → t.RawSql)
     (hs : transferSimplify dest t = none) (h : transferTo st fuel dest t = .ok res) :
     sem σ (res.get t) = sem σ t ∧ (∀ c, c ∈ (res.get t).columns ↔ c ∈ t.columns) ∧
-      (res.get t).WF ∧ (t.engine ≠ dest → (res.get t).engine = dest) := by
-  cases fuel with
-  | zero => rw [transferTo] at h; cases h
-  | succ fuel =>
-    rw [transferTo] at h
-    simp only [hs, bind, Except.bind, pure, Except.pure] at h
-    by_cases he : (t.engine == dest) = true
-    · -- already in the destination engine: only the SQL engine's conform acts
-      have hed : t.engine = dest := beq_iff_eq.mp he
-      simp only [he, if_true] at h
-      cases hk : dest.kind with
-      | iter =>
-        simp only [hk] at h
-        injection h with h; subst h
-        exact ⟨rfl, fun _ => Iff.rfl, hwf, fun hne => absurd hed hne⟩
-      | sql =>
-        simp only [hk, Res.get] at h
-        cases hc : conform st fuel t with
-        | error e => simp [hc] at h
-        | ok ct =>
-          simp only [hc] at h
-          obtain ⟨_, C⟩ := (treeBuild_sound σ st fuel).conform t ct
-            (raw_good σ t hwf htr (hraw (by rw [hed]; exact hk))) hc
-          have hres : res.get t = ct.get t := by
-            cases ct <;> (simp only at h; injection h with h; subst h; rfl)
-          rw [hres]
-          exact ⟨C.sem_eq, C.cols, C.ok.wf, fun hne => absurd hed hne⟩
-    · have hne : t.engine ≠ dest := fun h => he (beq_iff_eq.mpr h)
-      simp only [he, Bool.false_eq_true, if_false] at h
-      cases hci : conformIn st fuel t.engine.kind t with
-      | error e => simp [hci] at h
-      | ok ct =>
-        simp only [hci] at h
-        -- the conformed source
-        have hsrc : sem σ (ct.get t) = sem σ t ∧ (∀ c, c ∈ (ct.get t).columns ↔ c ∈ t.columns) ∧
-            (ct.get t).WF ∧ (ct.get t).Truthful σ := by
-          cases fuel with
-          | zero => simp [conformIn] at hci
-          | succ fuel' =>
-            cases hk : t.engine.kind with
-            | iter =>
-              simp only [conformIn, hk] at hci
-              injection hci with hci; subst hci
-              exact ⟨rfl, fun _ => Iff.rfl, hwf, htr⟩
-            | sql =>
-              simp only [conformIn, hk] at hci
-              obtain ⟨_, C⟩ := (treeBuild_sound σ st fuel').conform t ct (raw_good σ t hwf htr (hraw hk)) hci
-              exact ⟨C.sem_eq, C.cols, C.ok.wf, C.ok.truthful⟩
-        obtain ⟨s1, s2, s3, s4⟩ := hsrc
-        generalize ct.get t = src at h s1 s2 s3 s4
-        cases hk : dest.kind with
-        | iter =>
-          simp only [hk] at h
-          injection h with h; subst h
-          exact ⟨s1, s2, s3, fun _ => rfl⟩
-        | sql =>
-          simp only [hk, Res.get] at h
-          cases hc : conform st fuel (Rel.transfer 0 dest src) with
-          | error e => simp [hc] at h
-          | ok c2 =>
-            simp only [hc] at h
-            have gT : Good σ (Rel.transfer 0 dest src) := Good.atom _ rfl s3 s4 hk
-            obtain ⟨_, C⟩ := (treeBuild_sound σ st fuel).conform _ c2 gT hc
-            have hres : res.get t = c2.get (Rel.transfer 0 dest src) := by
-              cases c2 <;> (simp only at h; injection h with h; subst h; rfl)
-            rw [hres]
-            exact ⟨by rw [C.sem_eq]; exact s1, fun c => (C.cols c).trans (s2 c), C.ok.wf,
-              fun _ => by rw [C.engine]; rfl⟩
+      (res.get t).WF ∧ (t.engine ≠ dest → (res.get t).engine = dest) :=
+  let T := transferTo_sql_sound σ st fuel dest t res hwf htr hraw hs h
+  ⟨T.1, T.2.1, T.2.2.1, T.2.2.2.2.1⟩
 
 /-- `relation.materialized(name)` inside a SQL engine: same rows and columns, same engine, well-formed. -/
 theorem materialize_sql_keeps_content (σ : Leaves) (st : Store) (fuel : Nat) (t : Rel) (name : String)
